@@ -1,11 +1,13 @@
 ------------------------------ MODULE MC_Parser ------------------------------
 (* Bounded instances of Parser and behaviour emission.                          *)
-(*   MC_Parser_quick.cfg     all blocks of <= 3 lines over the reduced alphabet  *)
+(*   MC_Parser_quick.cfg     all blocks of <= 3 lines over the quick alphabet    *)
 (*   MC_Parser_quick2.cfg    every form of the full alphabet (every kind x       *)
 (*                           comment class x spacing) as line 2, after a blank   *)
 (*                           line or after the section marker                    *)
 (*   MC_Parser_thorough.cfg  all blocks of <= 4 lines over the reduced alphabet  *)
 (*   MC_Parser_thorough2.cfg all blocks of <= 3 lines over the middle alphabet   *)
+(*   MC_Parser_quick3.cfg / thorough3.cfg  all blocks of <= 3 / <= 4 lines over  *)
+(*                           the time alphabet (who defines the time axis)       *)
 (*   MC_Parser_asfound.cfg   quick instance with the defect switched on          *)
 EXTENDS Parser
 
@@ -22,6 +24,9 @@ Stems == { << "eq", "x", "y+1" >>, << "eq", "y", "0.5*x+g" >>, << "eq", "g", "[2
            << "ic", "x1", "3" >>, << "eq", "x1", "y+1" >>, << "lag1", "z_2", "x1" >>, << "ic", "H2__F", "2.5" >>,
            << "maxtime", "MaxTime", "3" >>, << "errtol", "Err_Tolerance", "1e-4" >>,
            << "usert", "t", "2*k" >>,
+           \* the user's time axis defined on a lag line, and its lag
+           << "lag1", "t", "s" >>, << "lag2", "t", "s" >>, << "lag3", "t", "s" >>,
+           << "lag1", "t_minus_1", "t" >>, << "eq", "s", "t+1" >>, << "ic", "t", "2000." >>,
            << "multieq", "x", "y" >> }
 
 MC_FormsAll ==
@@ -63,8 +68,31 @@ MC_FormsReduced == {
     F("eq", "x1", "y+1", "plain", "one"),
     F("lag1", "z_2", "x1", "none", "wide") }
 
+(* quick: the reduced alphabet without four marker-word forms that quick2 covers line by line *)
+MC_FormsQuick == MC_FormsReduced \ {
+    F("maxtime", "MaxTime", "3", "exo", "one"),
+    F("errtol", "Err_Tolerance", "1e-4", "exo", "one"),
+    F("noeq", "", "x+y", "exo", "wide"),
+    F("multieq", "x", "y", "exo", "tight") }
+
+(* time alphabet (quick3 / thorough3): who defines the time axis - the user's t on a lag line in  *)
+(* each of the three spellings, on a simultaneous line, only t_minus_1, nobody; before and after   *)
+(* the section marker                                                                             *)
+MC_FormsTime == {
+    F("lag1", "t", "s", "none", "one"),
+    F("lag2", "t", "s", "plain", "tight"),
+    F("lag3", "t", "s", "digits", "wide"),
+    F("lag1", "t_minus_1", "t", "none", "one"),
+    F("lag3", "t_minus_1", "t", "eq", "tight"),
+    F("eq", "s", "t+1", "none", "one"),
+    F("ic", "t", "2000.", "none", "one"),
+    F("usert", "t", "2*k", "none", "one"),
+    F("lag1", "z", "x", "none", "one"),
+    Marker,
+    Blank }
+
 (* middle alphabet (thorough2): the reduced one plus second spellings *)
-MC_FormsMiddle == MC_FormsReduced \cup {
+MC_FormsMiddle == MC_FormsReduced \cup MC_FormsTime \cup {
     F("eq", "g", "[2.]*10", "plain", "one"),
     F("eq", "y", "0.5*x+g", "exo", "one"),
     F("eq", "x", "y+1", "hash", "wide"),
